@@ -211,6 +211,7 @@ _G_RUNFAULT = _v2p("^VerifC15_run_fault$", dict(n=[1, 2], H=[1, 2], J=[1]), dict
 _G_LATE = _v2p("^VerifC07_run_late_close$", dict(n=[2], H=[2], K=[3]), dict(n=[2, 3], H=[2, 3], K=[3]))
 _G_ROUND = _v2p("^Verif(C05_saturated_round|C06_progress|C06_sole_priority)$", dict(n=[1, 2], Hmax=[3]), dict(n=[1, 2, 3], Hmax=[4]))
 _G_SAT3 = _v2p("^VerifC05_saturated_round$", dict(n=[3], Hmax=[3]), dict(n=[3], Hmax=[3]))
+_G_SORTL = _v2p("^VerifC15_sort_large$", dict(n=[9, 17, 40]), dict(n=[9, 17, 40, 130]))
 _G_ROUND2 = _v2p("^VerifC06_progress_two_rounds$", dict(n=[2, 3], Hmax=[3]), dict(n=[2, 3, 4], Hmax=[4]))
 _G_RUN = _v2p("^VerifC02_run$", dict(n=[1, 2], H=[1, 2], J=[1]), dict(n=[1, 2], H=[1, 2, 3], J=[1]), maxpaths=400000, approx=True)
 _G_SIMPLE = dict(mod="v2", pkg="priority/simple", overlay="harness/v2/simple", harness="^VerifC01_simple_handler$",
@@ -234,7 +235,7 @@ _prio("C02", "Exactly-once, correctly tagged, FIFO per priority: pending-item mo
       [_G_STEP_A, _G_STEP_B, _G_PRIOR, _G_LOOP1, _G_RUN, _G_SIMPLE])
 _prio("C05", "Saturation: from any state with actual[p] <= strategic[p] (shares as the constructor leaves them) and every input never empty, after any batch of releases one real base() round ends with "
       "actual[p] == strategic[p] for every p, every hand-out keeps actual[p] <= strategic[p], and waits only when all handlers are busy; the constructor sorts priorities high->low before dividing (any Inputs map order).",
-      [_G_ROUND, _G_SAT3, _G_NEW])
+      [_G_ROUND, _G_SAT3, _G_NEW, _G_SORTL])
 _prio("C06", "Progress, reduced to solver-decidable obligations plus the ranking argument of DESIGN 7 C06: (P0) constructor guarantees every share >= 1 and shares sum to H; (P1) the discipline blocks on feedback only while "
       "something is in flight (loop/main/run harnesses); (P2) nothing in flight + data somewhere => an item is delivered in one round without a release; (P3) a round proceeds only if every uncrowded priority got >= 1; "
       "(P4) a sole active priority reaches H in one round.",
@@ -246,7 +247,7 @@ _prio("C07", "Termination exactly when drained and released: real loop()/main() 
 _prio("C15", "Divider contract and fail-safe faults: the stub divider ASSERTS its arguments (non-nil distribution, dividend <= H, list of configured priorities strictly descending) at every call on every path; "
       "a fault (non-zero added total != dividend) injected at any call of a round or of the constructor yields ErrDividerBad from safeDivide/New/loop, no hand-out afterwards, capacity monitor still holds, "
       "main reports exactly that value and closes; a whole round (real base(), n<=2, H<=3) from an arbitrary state with the fault at call index 0..3 of the round (first calcTactic, its retry after waiting for a release, either recalcTactic division) fails with ErrDividerBad; New rejects zero shares (Fair exact, Rate for any float values, arbitrary sum-preserving divider).",
-      [_G_NEW, _G_SAFEDIV, _G_STEP_A, _G_STEP_B, _G_LOOP1, _G_RFAULT, _G_RUNFAULT])
+      [_G_NEW, _G_SAFEDIV, _G_STEP_A, _G_STEP_B, _G_LOOP1, _G_RFAULT, _G_RUNFAULT, _G_SORTL])
 
 # ---- v1 ---------------------------------------------------------------------------------------------------
 
@@ -281,6 +282,7 @@ _V1_ROUND = _v1p("^Verif(C05_saturated_round|C06_progress|C06_sole_priority)$", 
 _V1_RFAULT = _v1p("^VerifC15_round_fault$", dict(n=[1, 2], Hmax=[3]), dict(n=[1, 2], Hmax=[4]))
 _V1_RUNFAULT = _v1p("^VerifC15_v1_run_fault$", dict(n=[1, 2], H=[1, 2], J=[1]), dict(n=[1, 2], H=[1, 2, 3], J=[1, 2]))
 _V1_SAT3 = _v1p("^VerifC05_saturated_round$", dict(n=[3], Hmax=[3]), dict(n=[3], Hmax=[3]))
+_V1_SORTL = _v1p("^VerifC15_sort_large$", dict(n=[9, 17, 40]), dict(n=[9, 17, 40, 130]))
 _V1_NEW = _v1p("^VerifC15_v1_new$", dict(n=[1, 2, 3]), dict(n=[1, 2, 3, 4]))
 _SCZ7 = [dict(msg="GracefulStop never completes", file="replay/v1/priority/c16_scenario_test.go", test="TestVerifScenarioC07ZeroShare")]
 _SCZ6 = [dict(msg="an item is delivered without any release", file="replay/v1/priority/c16_scenario_test.go", test="TestVerifScenarioC06ZeroShare")]
@@ -293,10 +295,10 @@ _V1_C17 = [_V1_C17RUN, _v1p("^VerifC17_step_", dict(n=[1, 2, 3]), dict(n=[1, 2, 
 
 PROPS["C01"]["groups"] += [_V1_STEP_A, _V1_STEP_B, _V1_PRIOR, _V1_MAIN, _V1_NEW, _V1_SIMPLE] + _V1_C17
 PROPS["C02"]["groups"] += [_V1_STEP_A, _V1_STEP_B, _V1_PRIOR, _V1_MAIN, _V1_SIMPLE] + _V1_C17
-PROPS["C05"]["groups"] += [_V1_ROUND, _V1_SAT3, _V1_NEW]
+PROPS["C05"]["groups"] += [_V1_ROUND, _V1_SAT3, _V1_NEW, _V1_SORTL]
 PROPS["C06"]["groups"] += [_V1_ROUND, _v1p("^VerifC06_progress_two_rounds$", dict(n=[2, 3], Hmax=[3]), dict(n=[2, 3, 4], Hmax=[4])), _V1_MAIN, _V1_Z6, _v1p("^VerifC01_step_calcTactic$", dict(n=[1, 2, 3]), dict(n=[1, 2, 3, 4])), _v1p("^VerifC01_step_feedback$", dict(n=[1, 2], J=[2]), dict(n=[1, 2, 3], J=[3]))]
 PROPS["C07"]["groups"] += [_V1_MAIN, _V1_PROMPT, _V1_Z7, _V1_SIMPLE, _V1_C17RUN, _v1p("^VerifC01_step_io$", dict(n=[1, 2, 3], J=[2]), dict(n=[1, 2, 3, 4], J=[3]))]
-PROPS["C15"]["groups"] += [_V1_STEP_A, _V1_STEP_B, _V1_MAIN, _V1_NEW, _V1_RFAULT, _V1_RUNFAULT, _V1_SIMPLE, _V1_C17[1]]  # the divisions made by AddInput / RemoveInput obey the argument contract too
+PROPS["C15"]["groups"] += [_V1_STEP_A, _V1_STEP_B, _V1_MAIN, _V1_NEW, _V1_RFAULT, _V1_RUNFAULT, _V1_SIMPLE, _V1_C17[1], _V1_SORTL]  # the divisions made by AddInput / RemoveInput obey the argument contract too
 PROPS["C16"]["groups"] += [_V1_SIMPLE]
 for _p in ("C01", "C02", "C05", "C06", "C07", "C15"):
     PROPS[_p]["level_note"] += " v1: ported harness (same obligations), plus removed priorities with items in flight (foreign key in actual); v1 progress/termination obligations assume every share >= 1 (documented precondition), the zero-share case is a recorded known finding."
@@ -398,3 +400,5 @@ PROPS["C20"] = dict(
 PROPS["C14"]["groups"].append(dict(mod="v2", pkg="priority/divider", overlay="harness/v2/divider", harness="^VerifTV_dividers$", tv=True, jobs=2, params=dict(quick={}, thorough={})))
 PROPS["C18"]["groups"].append(dict(mod="v2", pkg="priority/utils", overlay="harness/v2/utils", harness="^VerifTV_utils$", tv=True, jobs=2, params=dict(quick={}, thorough={})))
 PROPS["C13"]["groups"].append(dict(mod="v2", pkg="limit", overlay="harness/v2/limit", harness="^VerifTV_rate$", tv=True, jobs=2, mode="int", params=dict(quick={}, thorough={})))
+
+PROPS["C18"]["groups"] += [_V1_SORTL]
